@@ -1,5 +1,7 @@
 SPECIFICATION Spec
 CONSTANT Calls <- K4
+CONSTANT Failing <- NoFail
+CONSTANT GiveBackOnFailure = FALSE
 CONSTANT Fix_RegisterAtomic = TRUE
 CONSTANT Fix_ExplicitCheck = TRUE
 INVARIANT NoSharedId
